@@ -51,7 +51,22 @@ RULE = ("(1) file-store traces of 8-40 ops (set/get/del/in/keys/items/len/clear/
         "session that hand out one object in the original must hand out one object in the twin); non-trivial = a session is "
         "changed AFTER the restore and then resolved by its id. The storage operations of these histories (write log of the "
         "original's DLDict + in-place changes) run through Model.ImpExp sd_dump / sd_load / sd_exec / sd_lookup (chk_share). "
-        "(3) RP histories likewise. (4) codec cases: every type marker x "
+        "(3) RP histories likewise. (3b) RP session histories through the public API (StandAloneClient and RPHandler; fixed "
+        "RP_SESSION_MATRIX + adaptive ones of 10-18 ops): begin (also re-using the nonce of an earlier, possibly cleared "
+        "session), finalize with ID Tokens carrying sub / sid (subjects and session ids shared between sessions), refresh, "
+        "userinfo, clear_session, RP-initiated logout + its callback (logout state -> session -> clear), back-channel logout "
+        "requests by sub / by sid (with and without clearing), front-channel logout by sid, look-ups through every kind of "
+        "bound key (nonce, sub, sid, logout state), session information, token validity after clock ticks, re-export -> "
+        "import of the restored twin; exported and restored after EVERY step; on every twin after every later step: the "
+        "outcome, the whole state store and a FURTHER export are compared with the original's; non-trivial = a session is "
+        "removed AFTER the restore and a key is resolved afterwards. The calls the library makes on the state store "
+        "(set / update / bind_key / remove_state / get_base_key / get; original up to the export, twin after it) and random "
+        "call sequences on a bare Current run through Model.ImpExp cur_step over the regenerated table of the class (chk_cur). "
+        "Attribute census at every crash point of these histories and at the end of every provider history: every ImpExp "
+        "instance reachable in the live RP / provider, every attribute it carries: exported (parameter / special_load_dump), "
+        "init arg, equal to a fresh instance's (configuration), equal to the restored twin's (rebuilt by load), else "
+        "state-not-exported:<Class>.<attr> unless listed in CENSUS_TRANSIENT; (class, attributes) rows are checked against the "
+        "regenerated tables in coqc (chk_census: pure-state classes must export everything). (4) codec cases: every type marker x "
         "JSON-like values incl. 'BYTES:' strings, 'upstream_get' / 'class' keys; real Item/SessionToken/Grant/NodeInfo/"
         "Current instances (random and harvested from the live provider)")
 ASSUMPTIONS = ["the cookie protection keys are configured key material (key file): a twin built from the same configuration reads cookies issued before the export",
@@ -59,7 +74,13 @@ ASSUMPTIONS = ["the cookie protection keys are configured key material (key file
                "the filesystem keeps what was written; file modification times order writes (single writer per directory)",
                "json.dumps / json.loads round-trip JSON-like values; Message.to_dict / from_dict round-trip (C10)",
                "Fernet / the JWS library are deterministic functions of their keys (same key material => same acceptance)",
-               "rndstr / uuid values are fresh (token values, states, client ids are compared by minting index)"]
+               "rndstr / uuid values are fresh (token values, states, client ids are compared by minting index)",
+               "RP restore recipe: context.load(dump) + services.load(dump, init_args={upstream_get: client.unit_get}) into a client built from the same configuration; the provider's signing keys are configured key material of the RP twin",
+               "census transient Grant.id / ExchangeGrant.id: read only by the call that creates the grant (grant_manager create_grant / create_exchange_grant use it as the last part of the branch key, which is exported with the database); after an import it holds a new uuid that nothing reads",
+               "census transient Grant.remember_token / Grant.remove_inactive_token (Coq list census_transient): per-grant copies of the session manager's configuration taken at creation, never changed afterwards; under the default configuration a restored grant has the same values (the driver's comparison with the restored twin decides, not the list)",
+               "recorded finding restore-drops-session-manager-config is kept narrow: only SessionManager attributes the constructor took from session_params (sub_func, remove_inactive_token, remember_token, node_type, node_info_class) that a fresh provider has and the restored one lacks; any other attribute that is neither exported nor rebuilt is state-not-exported:<Class>.<attr>",
+               "census transient SessionManager.conf: constructor input, read in __init__ only; what it configures is compared attribute by attribute",
+               "census transient SessionManager.userinfo: written by EndpointContext.do_userinfo and never read (claims are collected through the context's own userinfo attribute)"]
 
 SIG_LOCK_W = "filestore-lock-suffix-key"
 SIG_LOCK_R = "filestore-lock-name-phantom-read"
@@ -983,6 +1004,9 @@ def provider_history(ctx, rng, reb, kind, n, rich, how="context", fixed=None, p_
         B = restored_twin(ctx, reb, kind, how, js, alt, tab, rec, where)
         if B is None:
             continue
+        if i == len(snaps) - 1:      # the original still is in the state that was exported: attribute census
+            provider_census(ctx, A, B, kind, dict(rec, restore_point=i), "provider (%s export) restored %s" % (how, where))
+            reb.rebind()
         clock.now = now
         snapB = B.snapshot()
         if snapB != snapA:
@@ -1088,6 +1112,42 @@ def jwks_def_witness(ctx, reb):
                       % (json.dumps(o1b)[:120], json.dumps(o1)[:60]), rec)
 
 
+def session_config_witness(ctx, reb):
+    """fixed witness of the recorded finding: a provider configured with session_params.sub_func (salted public subject
+    identifiers); EndpointContext.load replaces the configured session manager by a default-constructed one, so logins
+    after a context-level restore get subject identifiers from the built-in minters"""
+    import srv_c13
+    clock = reb.clock
+    clock.now = 1_700_000_000
+    kind = {"jwt_access": False, "pin": "pwsalt", "sub_func": "salted", "sessions": True}
+    h = [("authz", "diana", "client_1", ["openid"], "code"), ("token", ("tok", 0), "client_1", None, "client_1"), ("userinfo", ("tok", 1)),
+         ("authz", "diana", "client_1", ["openid"], "code"), ("token", ("tok", 3), "client_1", None, "client_1"), ("userinfo", ("tok", 4))]
+    A = srv_c13.Prov(kind, clock)
+    reb.rebind()
+    outs = [A.run(op) for op in h[:3]]
+    js, alt = export(A.server, "context")
+    rec = {"kind": kind, "how": "context", "history": h, "restore_point": 2, "original": outs}
+    B = restored_twin(ctx, reb, kind, "context", js, alt[0] if alt else None, A.tables(), rec, "after step 2")
+    if B is None:
+        return
+    provider_census(ctx, A, B, kind, rec, "provider with configured session_params.sub_func, restored after step 2")
+    reb.rebind()
+    outs += [A.run(op) for op in h[3:]]
+    clock.now = 1_700_000_000
+    outs_b = [B.run(op) for op in h[3:]]
+    rec["restored"] = outs_b
+    ctx.case_seen(rec, True)
+    sub = lambda o: o[1].get("sub") if o[0] == "ok" and isinstance(o[1], dict) else None
+    if outs[2][0] != "ok" or sub(outs[5]) != sub(outs[2]):
+        ctx.violation(SIG_RESTORE, "witness history does not run as expected on the original: %s" % json.dumps(outs)[:300], rec)
+    elif outs_b != outs[3:]:
+        j = next(k for k in range(3) if outs_b[k] != outs[3 + k])
+        ctx.violation(SIG_SMCONF, "session_params.sub_func configured (salted public identifiers), context exported after step 2 and imported into a "
+                                  "fresh provider from the same configuration: op %d %r answered %s by the restored provider, %s by the original "
+                                  "(subject of the same user at the same client before the export: %s)"
+                      % (3 + j, h[3 + j], json.dumps(outs_b[j])[:200], json.dumps(outs[3 + j])[:200], sub(outs[2])), rec)
+
+
 def par_json_witness(ctx, reb):
     import srv_c13
     clock = reb.clock
@@ -1161,6 +1221,422 @@ def rp_history(ctx, rng, n):
             if outs[j][0] == "ok" and hist[j][0] in ("token_req", "refresh_req", "userinfo_req", "nonce_owner"):
                 depends = True
     ctx.case_seen({"rp_history": hist, "outs": [o[0] for o in outs]}, depends)
+
+
+# ======================================================================================== (3b) relying party: sessions
+SIG_RP_STATE = "rp-restore-state-diverges"
+SIG_SMCONF = "restore-drops-session-manager-config"
+# what the SessionManager constructor takes from conf["session_params"] (Model.ImpExpReq.session_manager_config_attrs)
+SM_CONFIG_ATTRS = ("sub_func", "remove_inactive_token", "remember_token", "node_type", "node_info_class")
+SIG_CENSUS = "state-not-exported:"
+# attributes that are knowingly neither exported nor rebuilt by load(): (class, attribute) -> why that cannot be noticed
+CENSUS_TRANSIENT = {
+    ("Grant", "id"): "read only by the call that creates the grant (last part of the branch key the grant is filed under, which is exported)",
+    ("ExchangeGrant", "id"): "as Grant.id",
+    ("SessionManager", "conf"): "constructor input: read in __init__ only (what it configures is compared attribute by attribute)",
+    ("SessionManager", "userinfo"): "written by EndpointContext.do_userinfo, never read (the context's own userinfo attribute is what is used)",
+}
+CENSUS_CASES = {}
+CUR_CASES = []
+
+RP_SESSION_MATRIX = [
+    ("begin", ["openid"]),                              # 0: session 0
+    ("finalize", 0, "diana", "sid-0", True),            # 1: nonce, sub, sid of session 0 bound
+    ("begin", ["openid", "email"]),                     # 2: session 1
+    ("finalize", 1, "babs", "sid-1", True),             # 3
+    ("refresh", 0, True),                               # 4
+    ("userinfo", 1),                                    # 5
+    ("logout", 0),                                      # 6: logout state 0 bound to session 0
+    ("lookup", "lstate", 0),                            # 7
+    ("bc_logout", "sid", 1, True),                      # 8: back-channel logout of session 1 by sid, session cleared
+    ("lookup", "sub", 1),                               # 9: gone
+    ("bc_logout", "sub", 1, False),                     # 10: a second logout token for the cleared subject
+    ("lookup", "nonce", 1),                             # 11
+    ("logout_cb", 0, True),                             # 12: the post-logout redirect comes back, session 0 cleared
+    ("lookup", "sub", 0),                               # 13
+    ("lookup", "sid", 0),                               # 14
+    ("lookup", "lstate", 0),                            # 15
+    ("bc_logout", "sub", 0, False),                     # 16
+    ("begin", ["openid"], ("nonce", 0)),                # 17: a new request re-uses the nonce of the cleared session 0
+    ("redump",),                                        # 18
+    ("finalize", 2, "diana", "sid-2", False),           # 19
+    ("lookup", "nonce", 0),                             # 20: now session 2's
+    ("begin", ["openid"]),                              # 21: session 3
+    ("finalize", 3, "diana", "sid-3", True),            # 22: the subject moves to session 3
+    ("clear", 2),                                       # 23
+    ("lookup", "sub", 0),                               # 24: still session 3
+    ("fc_logout", 3),                                   # 25: front-channel logout names sid-3
+    ("info", 3),                                        # 26
+    ("tick", 700),                                      # 27
+    ("active", 1),                                      # 28
+    ("clear", 0),                                       # 29: clearing a session that is gone
+]
+RP_REMOVALS = ("clear", "logout_cb", "bc_logout", "fc_logout")
+
+
+def next_rp_session_op(rng, A):
+    nS, nL = len(A.states), len(A.lstates)
+    done = [i for i, s in enumerate(A.sess) if s]
+    r = rng.random()
+    i = rng.randrange(nS) if nS and rng.random() < 0.93 else nS + 1
+    d = rng.choice(done) if done and rng.random() < 0.9 else i
+    if r < 0.16 or not nS:
+        reuse = ("nonce", rng.randrange(nS)) if nS and rng.random() < 0.25 else None
+        return ("begin", rng.choice([["openid"], ["openid", "email"], ["openid", "offline_access"]]), reuse)
+    if r < 0.32:
+        pend = [k for k in range(nS) if k >= len(A.sess) or not A.sess[k]]
+        k = rng.choice(pend) if pend and rng.random() < 0.8 else i
+        sub = rng.choice(A.SUBS)
+        return ("finalize", k, sub, rng.choice(["sid-%d" % k, "sid-%d" % k, None, "sid-shared"]), rng.random() < 0.7)
+    if r < 0.38:
+        return ("refresh", d, rng.random() < 0.5)
+    if r < 0.43:
+        return ("userinfo", d)
+    if r < 0.51:
+        return ("clear", d if rng.random() < 0.8 else i)
+    if r < 0.58:
+        return ("logout", d)
+    if r < 0.64 and nL:
+        return ("logout_cb", rng.randrange(nL) if rng.random() < 0.9 else nL, rng.random() < 0.8)
+    if r < 0.73:
+        return ("bc_logout", rng.choice(["sub", "sid"]), d, rng.random() < 0.7)
+    if r < 0.77:
+        return ("fc_logout", d)
+    if r < 0.90:
+        kind = rng.choice(["nonce", "sub", "sid", "lstate"])
+        return ("lookup", kind, rng.randrange(nL) if kind == "lstate" and nL else d)
+    if r < 0.93:
+        return ("info", d)
+    if r < 0.95:
+        return ("active", d)
+    if r < 0.97:
+        return ("tick", rng.choice([1, 200, 301, 601]))
+    return ("redump",)
+
+
+def rp_export_view(X):
+    """the export of a relying party, comparable between twins (random states / nonces -> indices, keys -> ids)"""
+    d = X.dump()
+    c = strip_volatile(d["context"])
+    if isinstance(c.get("keyjar"), dict):
+        c["keyjar"] = {k: sorted(set(map(tuple, v))) if isinstance(v, list) else v for k, v in c["keyjar"].items()}
+    return X.canon({"context": c, "services": json.loads(json.dumps(d["services"], default=lambda o: "<%s>" % type(o).__name__))})
+
+
+def census_report(ctx, rows, rec, where, pending=None):
+    """verdicts of the attribute census + the (class, attributes) rows for Model.ImpExp.chk_census; with `pending` the
+    verdicts are collected (first one per attribute) and issued by the caller when the history is complete"""
+    per_class = {}
+    for cls, a, verdict, va, vf, vb in rows:
+        per_class.setdefault(cls, set()).add(a)
+        short_cls = cls.rsplit(".", 1)[-1]
+        if verdict != "lost":
+            ctx.count("census:%s" % verdict)
+            continue
+        if (short_cls, a) in CENSUS_TRANSIENT:
+            ctx.count("census:transient:%s.%s" % (short_cls, a))
+            continue
+        if short_cls == "SessionManager" and a in SM_CONFIG_ATTRS and vf == va:
+            # (recorded finding, kept narrow: configuration - a fresh provider has it - that the session manager's constructor
+            #  took from session_params and that the session manager built by EndpointContext.load does not have)
+            v = (SIG_SMCONF, "%s: SessionManager.%s as configured (session_params) is %s in the live and in a fresh provider, %s in the "
+                 "restored one: EndpointContext.load builds a default session manager" % (where, a, json.dumps(va, default=str)[:120],
+                                                                                          json.dumps(vb, default=str)[:120]),
+                 dict(rec, census={"class": cls, "attribute": a}))
+            if pending is None:
+                ctx.violation(*v)
+            elif not any(p[0] == v[0] for p in pending):
+                pending.append(v)
+            continue
+        v = (SIG_CENSUS + "%s.%s" % (short_cls, a),
+             "%s: attribute %s of a live %s is neither in the class's `parameter` / special_load_dump tables nor rebuilt by load(): "
+             "live %s, fresh instance %s, restored instance %s" % (where, a, cls, json.dumps(va, default=str)[:160],
+                                                                   json.dumps(vf, default=str)[:100], json.dumps(vb, default=str)[:100]),
+             dict(rec, census={"class": cls, "attribute": a}))
+        if pending is None:
+            ctx.violation(*v)
+        elif not any(p[0] == v[0] for p in pending):
+            pending.append(v)
+    for cls, attrs in per_class.items():
+        key = (cls, tuple(sorted(attrs)))
+        if key not in CENSUS_CASES:
+            CENSUS_CASES[key] = ("(%s, %s)" % (coq_str(cls), coq_list([coq_str(a) for a in key[1]], "pystr")),
+                                 {"census": cls, "attributes": list(key[1]), "seen": where})
+
+
+class Interner:
+    """literals and repeated sub-terms of the case files, emitted once as Definitions (elaborating literals is what makes
+    coqc slow)"""
+
+    def __init__(self):
+        self.defs, self.names = [], {}
+
+    def share(self, text, ty, prefix):
+        n = self.names.get((text, ty))
+        if n is None:
+            n = "%s_%d" % (prefix, len(self.defs))
+            self.names[(text, ty)] = n
+            self.defs.append("Definition %s : %s := %s.\n" % (n, ty, text))
+        return n
+
+    def prelude(self):
+        return "".join(self.defs)
+
+
+def check_cases_prelude(ctx, imports, case_type, checker, cases, prelude, shard=400, label="cases", diag=None):
+    """engine.Ctx.coq_check_cases with a prelude of shared Definitions in every shard (same verdicts and bookkeeping)"""
+    from concurrent.futures import ThreadPoolExecutor
+    jobs = []
+    for i in range(0, len(cases), shard):
+        part = cases[i:i + shard]
+        ctx.shard_seq += 1
+        name = "%s_%s_%03d" % (ctx.prop, label, ctx.shard_seq)
+        body = "%sDefinition cases : list (%s) := [\n%s\n].\nEval vm_compute in (bad_indices (%s) cases).\n" % (
+            prelude, case_type, ";\n".join(t for t, _ in part), checker)
+        jobs.append((name, body, part))
+    with ThreadPoolExecutor(max_workers=min(E.NCPU, max(1, len(jobs)))) as ex:
+        results = list(ex.map(lambda job: (job, ctx.coq_eval(job[0], imports, job[1])), jobs))
+    bad = []
+    for (name, body, part), (rc, out, vals) in results:
+        if rc != 0 or not vals:
+            ctx.broken.append("correspondence shard %s does not evaluate: %s" % (name, out.strip()[-600:]))
+            continue
+        try:
+            idx = E.parse_nat_list(vals[-1])
+        except ValueError as e:
+            ctx.broken.append("correspondence shard %s: %s" % (name, e))
+            continue
+        ctx.traces += len(part)
+        dvals = {}
+        if idx and diag:
+            dbody = prelude + "".join("Eval vm_compute in (%s (%s)).\n" % (diag, part[k][0]) for k in idx[:3])
+            drc, dout, dv = ctx.coq_eval(name + "_diag", imports, dbody)
+            dvals = dict(zip(idx[:3], dv))
+        for k in idx:
+            bad.append(part[k][1])
+            ctx.mismatch("model and implementation disagree (%s, %s[%d])" % (label, name, k), part[k][1],
+                         model=(dvals.get(k) or part[k][0])[:3000])
+    return bad
+
+
+CUR_INTERN = Interner()
+
+
+def cur_case(log, canon, I=CUR_INTERN):
+    """the calls the library made on the RP's state store (+ restores, + the store after every request) as a trace of
+    Model.ImpExp.cur_step; values other than nonces are opaque to the store: -> small integers"""
+    table = {}
+    ks = lambda k: I.share(coq_bytes(str(canon(k)).encode("utf-8")), "pystr", "k")
+
+    def val(k, v):
+        v = canon(v)
+        if k == "nonce" and isinstance(v, str):
+            return "(VStr %s)" % ks(v)
+        return "(VInt %d)" % table.setdefault(json.dumps(v, sort_keys=True, default=str), len(table))
+
+    def items(d):
+        return I.share(coq_list(["(%s, %s)" % (ks(k), val(k, v)) for k, v in d.items()], "(pystr * pyval)"), "list (pystr * pyval)", "r")
+
+    def err(name):
+        return "(CErrR %s)" % EXC[name] if name in EXC else None
+
+    out = []
+    last_snap = None
+    for name, a, (st, r) in log:
+        if name == "set":
+            t = ("(CSet %s %s)" % (ks(a[0]), items(a[1])), "CUnit")
+        elif name == "update":
+            if not isinstance(a[1], dict):
+                return None
+            t = ("(CUpd %s %s)" % (ks(a[0]), items(a[1])), "(CDictR %s)" % items(r) if st == "ok" else err(r))
+        elif name == "bind_key":
+            t = ("(CBind %s %s)" % (ks(a[0]), ks(a[1])), "CUnit" if st == "ok" else err(r))
+        elif name == "remove_state":
+            t = ("(CRemove %s)" % ks(a[0]), "CUnit")
+        elif name == "get_base_key":
+            t = ("(CBase %s)" % ks(a[0]), "(CStrR %s)" % ks(r) if st == "ok" else err(r))
+        elif name == "get":
+            t = ("(CGet %s)" % ks(a[0]), "(CDictR %s)" % items(r) if st == "ok" else err(r))
+        elif name == "snap":
+            db, mp = r
+            t = ("CSnap", "(CStateR %s %s)" % (
+                I.share(coq_list(["(%s, (VDict %s))" % (ks(k), items(v)) for k, v in db.items()], "(pystr * pyval)"), "list (pystr * pyval)", "d"),
+                I.share(coq_list(["(%s, %s)" % (ks(k), ks(v)) for k, v in mp.items()], "(pystr * pystr)"), "list (pystr * pystr)", "m")))
+            if t == last_snap:
+                continue        # (nothing changed since the last look at the whole store)
+            last_snap = t
+        elif name == "restore":
+            t = ("CRestore", "CUnit")
+            last_snap = None
+        else:
+            continue
+        if t[1] is None:
+            return None
+        out.append("(%s, %s)" % t)
+    return coq_list(out, "(cop * cout)")
+
+
+def rp_session_history(ctx, rng, clock, reb, variant, n, fixed=None):
+    """a relying party history; after EVERY step the RP is exported and a fresh RP imports it (census of the attributes
+    at that moment: live vs fresh vs restored), then every twin runs the rest of the history: outcome, state store and a
+    further export are compared with the original's after every step"""
+    import srv_c13
+    clock.now = 1_700_000_000
+    A = srv_c13.RPs(variant)
+    A.clock = clock
+    F = srv_c13.RPs(variant)
+    reb.rebind()
+    hist, outs, snaps, twins, pending = [], [], [], [], []
+    rec = {"rp_session_history": hist, "variant": variant, "outs": outs}
+    for k in range(len(fixed) if fixed else n):
+        op = fixed[k] if fixed else next_rp_session_op(rng, A)
+        hist.append(op)
+        outs.append(["ok"] if op[0] == "redump" else A.run(op))
+        ctx.count("rps:" + op[0] + (":" + str(op[1]) if op[0] in ("lookup", "bc_logout") else ""))
+        ctx.count("rps-out:" + op[0] + ":" + str(outs[-1][0] if outs[-1][0] != "exc" else outs[-1][1]))
+        js = json.dumps(A.dump(), default=lambda o: "<%s>" % type(o).__name__)
+        snaps.append((A.tables(), clock.now, A.snapshot(), rp_export_view(A), len(A.log)))
+        B = srv_c13.RPs(variant)
+        B.clock = clock
+        try:
+            B.load(json.loads(js))
+        except Exception as e:
+            ctx.violation(SIG_RP, "RP import of the state exported after step %d (%r) raises %r" % (k, op, e), rec)
+            twins.append(None)
+            continue
+        B.set_tables(snaps[-1][0])
+        twins.append(B)
+        census_report(ctx, srv_c13.census_rows(A.client, F.client, B.client), dict(rec, restore_point=k),
+                      "relying party (%s) after step %d %r" % (variant, k, op), pending)
+    end = clock.now
+    dep = False
+    for i, B in enumerate(twins):
+        if B is None:
+            continue
+        tab, now, snapA, expA, nlog = snaps[i]
+        clock.now = now
+        where = "RP restored after step %d (%r)" % (i, hist[i])
+        r2 = dict(rec, restore_point=i)
+        if B.snapshot() != snapA:
+            ctx.violation(SIG_RP_STATE, "%s: state store differs right after the import" % where, r2)
+        if rp_export_view(B) != expA:
+            a, b = expA["context"], rp_export_view(B)["context"]
+            ctx.violation(SIG_REDUMP, "RP dump(load(dump)) differs in %s" % [k for k in a if a.get(k) != b.get(k)], r2)
+        removed = False
+        for j in range(i + 1, len(hist)):
+            if hist[j][0] == "redump":
+                B2 = srv_c13.RPs(variant)
+                B2.clock = clock
+                try:
+                    B2.load(json.loads(json.dumps(B.dump(), default=lambda o: "<%s>" % type(o).__name__)))
+                except Exception as e:
+                    ctx.violation(SIG_RP, "%s: import of its re-export at step %d raises %r" % (where, j, e), r2)
+                    break
+                B2.set_tables(B.tables())
+                B2.log[:0] = B.log
+                B, o = B2, ["ok"]
+                ctx.count("rps-chain:re-export-of-a-restored-twin")
+            else:
+                o = B.run(hist[j])
+            r3 = dict(r2, op_index=j)
+            if o != outs[j]:
+                ctx.violation(SIG_RP, "%s: op %d %r answered %s by the restored RP, %s by the original"
+                              % (where, j, hist[j], json.dumps(o)[:300], json.dumps(outs[j])[:300]), r3)
+                break
+            if B.snapshot() != snaps[j][2]:
+                sa, sb = snaps[j][2], B.snapshot()
+                diff = {k: (sa[k2].get(k), sb[k2].get(k)) for k2 in ("db", "map") for k in set(sa[k2]) | set(sb[k2]) if sa[k2].get(k) != sb[k2].get(k)}
+                ctx.violation(SIG_RP_STATE, "%s: after op %d %r the state store of the restored RP differs from the original's (key: original / restored): %s"
+                              % (where, j, hist[j], json.dumps(diff, default=str)[:400]), r3)
+                break
+            if rp_export_view(B) != snaps[j][3]:
+                a, b = snaps[j][3]["context"], rp_export_view(B)["context"]
+                ctx.violation(SIG_RP_STATE, "%s: after op %d %r a further export of the restored RP differs from the original's export in %s"
+                              % (where, j, hist[j], [k for k in a if a.get(k) != b.get(k)] or ["services"]), r3)
+                break
+            if hist[j][0] in RP_REMOVALS and outs[j][0] == "ok":
+                removed = True
+            elif removed and hist[j][0] in ("lookup", "bc_logout", "logout_cb", "fc_logout", "begin", "info"):
+                dep = True        # a session removed AFTER the restore, then a request that resolves a key
+        # the store-level calls of original (up to the export) and twin (after it) through Model.ImpExp.cur_step
+        if srv_c13._CUR_SAVED and (not ctx.quick or i % 3 == 0 or (i + 1 < len(hist) and hist[i + 1][0] in RP_REMOVALS)):
+            t = cur_case(A.log[:nlog] + B.log, B.canon)
+            if t is None:
+                ctx.unmodelled += 1
+            else:
+                CUR_CASES.append((t, {"rp_store_trace": "calls on Current of the original up to the export, of the twin after it",
+                                      "variant": variant, "history": list(hist), "restore_point": i}))
+    clock.now = end
+    for sig, what, case in pending:      # census verdicts of this history (first crash point per attribute)
+        ctx.violation(sig, what, dict(case, rp_session_history=list(hist), outs=list(outs)))
+    ctx.case_seen({"rp_session_history": hist, "variant": variant, "outs": [o[0] for o in outs]}, dep)
+    ctx.count("rp-session-history:" + ("removal-then-resolve-after-restore" if dep else "no-removal-then-resolve"))
+
+
+def cur_traces(ctx, rng, n):
+    """random call sequences on a bare idpyoidc.client.current.Current, with export -> JSON -> import into Current() at
+    random points, against Model.ImpExp.cur_step over the regenerated table of the class"""
+    from idpyoidc.client.current import Current
+    cases = []
+    for t in range(n):
+        c = Current()
+        keys = ["s%d" % i for i in range(3)]
+        bound = ["n0", "n1", "sub", "sid", "s0"]
+        log = []
+        for _ in range(rng.randint(6, 22)):
+            r = rng.random()
+            k = rng.choice(keys)
+            try:
+                if r < 0.12:
+                    info = {"iss": "i", "nonce": rng.choice(bound[:2])} if rng.random() < 0.7 else {}
+                    c.set(k, copy.deepcopy(info))
+                    log.append(("set", [k, info], ("ok", None)))
+                elif r < 0.30:
+                    info = rng.choice([{"code": "c"}, {"nonce": rng.choice(bound[:2]), "x": 1}, {"access_token": "a", "iss": "j"}, {}])
+                    res = c.update(k, copy.deepcopy(info))
+                    log.append(("update", [k, info], ("ok", copy.deepcopy(res))))
+                elif r < 0.50:
+                    fro = rng.choice(bound)
+                    try:
+                        c.bind_key(fro, k)
+                        log.append(("bind_key", [fro, k], ("ok", None)))
+                    except ValueError:
+                        log.append(("bind_key", [fro, k], ("exc", "ValueError")))
+                elif r < 0.62:
+                    c.remove_state(k)
+                    log.append(("remove_state", [k], ("ok", None)))
+                elif r < 0.78:
+                    b = rng.choice(bound)
+                    try:
+                        log.append(("get_base_key", [b], ("ok", c.get_base_key(b))))
+                    except KeyError:
+                        log.append(("get_base_key", [b], ("exc", "KeyError")))
+                elif r < 0.86:
+                    try:
+                        log.append(("get", [k], ("ok", copy.deepcopy(c.get(k)))))
+                    except KeyError:
+                        log.append(("get", [k], ("exc", "KeyError")))
+                else:
+                    c = Current().load(json.loads(json.dumps(c.dump())))
+                    log.append(("restore", [], ("ok", None)))
+            except Exception as e:
+                ctx.violation(SIG_RP, "Current: %r" % (e,), {"current_trace": log})
+                break
+            log.append(("snap", [], ("ok", (copy.deepcopy(c._db), copy.deepcopy(c._map)))))
+            ctx.count("cur:" + log[-2][0])
+        rec = {"current_trace": [(x[0], x[1]) for x in log if x[0] != "snap"]}
+        ctx.case_seen(rec, any(x[0] == "restore" for x in log) and any(x[0] == "remove_state" for x in log))
+        cases.append((cur_case(log, lambda x: x), rec))
+    return cases
+
+
+def provider_census(ctx, A, B, kind, rec, where):
+    """attribute census of the provider: every ImpExp instance reachable from the context of the live provider against a
+    fresh provider (same configuration) and the twin restored from its export"""
+    import srv_c13
+    F = srv_c13.Prov(kind, A.clock)
+    census_report(ctx, srv_c13.census_rows(A.server.context, F.server.context, B.server.context), rec, where)
+
 
 
 # ======================================================================================== (4) ImpExp codec
@@ -1462,6 +1938,7 @@ def run(ctx):
                              p_session=0.45, battery=True, share=True)
         jwks_def_witness(ctx, reb)
         par_json_witness(ctx, reb)
+        session_config_witness(ctx, reb)
     finally:
         reb.restore()
         clock.uninstall()
@@ -1474,6 +1951,40 @@ def run(ctx):
     # (3) relying party
     for _ in range(4 if q else 80):
         rp_history(ctx, rng, rng.randint(8, 16))
+
+    # (3b) relying party: sessions that are removed / re-keyed AFTER the restore, look-ups through every bound key, chains
+    import srv_c13
+    import logging
+    clock = srv.Clock().install()
+    reb = Rebinder(clock)
+    srv_c13.cur_log_install()
+    lg = logging.getLogger("idpyoidc")
+    lvl = lg.level
+    lg.setLevel(logging.CRITICAL)      # (refused requests are part of the histories: the library logs a traceback for each)
+    try:
+        for variant in ("sac", "rph"):
+            rp_session_history(ctx, rng, clock, reb, variant, 0, fixed=RP_SESSION_MATRIX)
+        for r in range(6 if q else 120):
+            rp_session_history(ctx, rng, clock, reb, ("sac", "rph")[r % 2], rng.randint(10, 18))
+    finally:
+        lg.setLevel(lvl)
+        srv_c13.cur_log_uninstall()
+        reb.restore()
+        clock.uninstall()
+    for c in CUR_CASES:
+        ctx.case_seen(c[1], True)
+    imp = ["Lib.Base", "Lib.PyStr", "Lib.ImpExpTy", "Gen.ImpExpTables", "Model.ImpExp", "Model.ImpExpReq"]
+    cases = CUR_CASES + cur_traces(ctx, rng, 80 if q else 2000)
+    check_cases_prelude(ctx, imp, "list (cop * cout)", "(chk_cur impexp_tables c_Current)", cases, CUR_INTERN.prelude(),
+                        shard=60 if q else 400, label="rpstore", diag="(diag_cur impexp_tables c_Current)")
+    del CUR_CASES[:]
+    CUR_INTERN.__init__()
+    # attribute census: (class, attributes live instances carry) against the regenerated tables
+    for c in CENSUS_CASES.values():
+        ctx.case_seen(c[1], True)
+    ctx.coq_check_cases(imp, "pystr * list pystr", "(chk_census impexp_tables census_closed census_transient)",
+                        list(CENSUS_CASES.values()), label="census", diag="(diag_census impexp_tables census_closed census_transient)")
+    CENSUS_CASES.clear()
 
     # (4) codec
     from idpyoidc.server.session.grant import Grant
